@@ -146,6 +146,24 @@ XmppSocket::XmppSocket(QObject *parent)
 {
 }
 
+// Returns the size of the longest prefix of data that does not end inside a multi-byte UTF-8
+// sequence.
+static int utf8CompletePrefixSize(const QByteArray &data)
+{
+    const int size = data.size();
+    // the lead byte of an incomplete sequence is one of the last three bytes
+    for (int i = 1; i <= 3 && i <= size; ++i) {
+        const auto byte = static_cast<unsigned char>(data.at(size - i));
+        if ((byte & 0xC0) == 0x80) {
+            // continuation byte
+            continue;
+        }
+        const int sequenceSize = byte >= 0xF0 ? 4 : (byte >= 0xE0 ? 3 : (byte >= 0xC0 ? 2 : 1));
+        return sequenceSize > i ? size - i : size;
+    }
+    return size;
+}
+
 void XmppSocket::setSocket(QSslSocket *socket)
 {
     m_socket = socket;
@@ -160,6 +178,7 @@ void XmppSocket::setSocket(QSslSocket *socket)
 
         // do not emit started() with direct TLS (this happens in encrypted())
         if (!m_directTls) {
+            m_undecodedBytes.clear();
             m_dataBuffer.clear();
             m_streamOpenElement.clear();
             Q_EMIT started();
@@ -168,6 +187,7 @@ void XmppSocket::setSocket(QSslSocket *socket)
     QObject::connect(socket, &QSslSocket::encrypted, this, [this]() {
         debug(u"Socket encrypted"_s);
         // this happens with direct TLS or STARTTLS
+        m_undecodedBytes.clear();
         m_dataBuffer.clear();
         m_streamOpenElement.clear();
         Q_EMIT started();
@@ -176,7 +196,15 @@ void XmppSocket::setSocket(QSslSocket *socket)
         warning(u"Socket error: "_s + m_socket->errorString());
     });
     QObject::connect(socket, &QSslSocket::readyRead, this, [this]() {
-        processData(QString::fromUtf8(m_socket->readAll()));
+        // A multi-byte UTF-8 character may be split across two reads: only decode complete
+        // characters and keep the incomplete tail for the next read.
+        m_undecodedBytes.append(m_socket->readAll());
+        const auto completeSize = utf8CompletePrefixSize(m_undecodedBytes);
+        const auto text = QString::fromUtf8(m_undecodedBytes.constData(), completeSize);
+        m_undecodedBytes.remove(0, completeSize);
+        if (!text.isEmpty()) {
+            processData(text);
+        }
     });
 }
 
